@@ -6,6 +6,10 @@
 mod b64;
 mod out;
 mod simcpu;
+mod c03;
+mod c04;
+mod c05;
+mod c06;
 mod c07;
 
 pub struct Args {
@@ -41,6 +45,10 @@ fn main() {
     }
     out::silence_panics();
     match a.prop.as_str() {
+        "C03" => c03::run(&a),
+        "C04" => c04::run(&a),
+        "C05" => c05::run(&a),
+        "C06" => c06::run(&a),
         "C07" => c07::run(&a),
         "profile" => println!("{} overflow_checks={}", out::profile(), out::overflow_checks_on()),
         p => {
